@@ -4,10 +4,13 @@ import (
 	"context"
 	"encoding/json"
 	"fmt"
+	"go/token"
+	"go/types"
 	"os"
 	"os/exec"
 	"path/filepath"
 	"sort"
+	"strconv"
 	"strings"
 	"time"
 )
@@ -123,7 +126,12 @@ func runCheck(prop, tier string, seed int, t0 time.Time) int {
 		timeout = 60
 		two = true
 	}
+	// the must-fail corpus only needs the expected obligation NOT to be discharged: a shorter per-query limit there
+	if v, err := strconv.Atoi(os.Getenv("GOVC_QUERY_TIMEOUT")); err == nil && v > 0 {
+		timeout = v
+	}
 	res := verifyFunctions(w, keys, timeout, two, scratch)
+	coverageFails := checkCoverage(w, prop)
 
 	// ---- collect ----
 	total, discharged := 0, 0
@@ -191,6 +199,11 @@ func runCheck(prop, tier string, seed int, t0 time.Time) int {
 		for _, u := range e.unsup {
 			unsup[e.fn.String()+": "+u] = true
 		}
+	}
+	for _, o := range coverageFails {
+		total++
+		kinds[o.Kind]++
+		failures = append(failures, o)
 	}
 	// free-text assumptions of a spec file are listed when one of that file's contracts was actually used
 	usedFiles := map[string]bool{}
@@ -515,4 +528,59 @@ func runSelftest(prop string) map[string]interface{} {
 		}
 	}
 	return map[string]interface{}{"run": len(caught) + len(missed), "caught": caught, "missed": missed, "skipped_patch_does_not_apply": skipped}
+}
+
+
+// checkCoverage: `coverage exported-bytes <prop>` directives. Every exported function, and every exported method of any
+// type, of the declaring package that has a []byte parameter must be under a contract tagged prop that has a modifies
+// clause; each one that is not becomes a failed obligation `coverage:<function>`.
+func checkCoverage(w *World, prop string) []*Oblig {
+	var out []*Oblig
+	for _, cd := range w.C.Coverage {
+		if cd.Prop != prop {
+			continue
+		}
+		var keys []string
+		for k := range w.funcs {
+			keys = append(keys, k)
+		}
+		sort.Strings(keys)
+		for _, k := range keys {
+			f := w.funcs[k]
+			if f.Pkg == nil || f.Pkg.Pkg.Path() != cd.Pkg || f.Parent() != nil || f.Synthetic != "" {
+				continue
+			}
+			if !token.IsExported(f.Name()) {
+				continue
+			}
+			takesBytes := false
+			for i := 0; i < f.Signature.Params().Len(); i++ {
+				t := f.Signature.Params().At(i).Type()
+				if sl, ok := t.Underlying().(*types.Slice); ok {
+					if b, ok2 := sl.Elem().Underlying().(*types.Basic); ok2 && b.Kind() == types.Byte {
+						takesBytes = true
+					}
+				}
+			}
+			if !takesBytes {
+				continue
+			}
+			fc := w.C.Funcs[normalizeFnKey(k)]
+			ok := fc != nil && fc.HasModifies && !fc.Skip
+			if ok {
+				tagged := false
+				for _, t := range fc.Tags {
+					if t == prop {
+						tagged = true
+					}
+				}
+				ok = tagged
+			}
+			if !ok {
+				out = append(out, &Oblig{Name: "coverage:" + f.Name(), Kind: "coverage", Fn: k, Status: "failed",
+					Src: "exported function with a []byte parameter has no contract with a modifies clause tagged " + prop + " (coverage directive " + cd.File + ")"})
+			}
+		}
+	}
+	return out
 }
